@@ -189,6 +189,16 @@ func Yield(kind uint64) {
 //go:norace
 func Blocked() {
 	if !baton {
+		// Outside the baton exactly one goroutine uses the library. If it
+		// cannot take a lock inside a budgeted call, nobody will ever release
+		// it: the call has deadlocked against the process history (e.g. a
+		// lock left held by an earlier panicking call). Report it the way a
+		// non-terminating call is reported.
+		if limit != 0 {
+			l := limit
+			limit = 0
+			panic(BudgetExceeded{-l})
+		}
 		runtime.Gosched()
 		return
 	}
